@@ -7,7 +7,8 @@
 EXTENDS PCommon
 Failing(e) ==
     Cl("C15+C16.total: the call panicked", e.res # "panic") \cup
-    (IF e.res = "panic" THEN {} ELSE
+    Cl("C15+C16.total: a read method panicked", ~Has(e, "obs_panic")) \cup
+    (IF e.res = "panic" \/ Has(e, "obs_panic") THEN {} ELSE
        LET o == e.obs_post IN
        Cl("C16.count = sum of inserted weights (accumulation accuracy)", o.count_close) \cup
        Cl("C16.sum = weighted sum of inserted values (accumulation accuracy)", o.sum_close) \cup
